@@ -17,16 +17,21 @@ EXPLANATION = (
     "on the same table at the successor; other table's value of the own greedy action, each table learning on some path). It does not matter "
     "whether the successor action is chosen in the loop or in the helper. Dyna-Q's planning loop is read the same way against the model "
     "(s' = argmax P(.|s,a), r = R(s,a,s')) for the pair of buffer entries it writes. The Monte-Carlo fori_loop body is read by the roles of the "
-    "loop-state components (entry and change of the entry of Q and n, the return), Dyna-Q's model and counter by their stores per path. "
+    "loop-state components (entry and change of the entry of Q and n, the return); a jax.lax.scan over the episode arrays (reverse=True, or forward over "
+    "x[::-1] / flip(x), or over arange(len)) is read as the same loop, each scanned array contributing its entry at the position of the step; the pair handed "
+    "back must be the Q and n components of the final loop state. Independently of the loop form, no value that reaches the returned tables may be divided by "
+    "gamma or by a power of gamma running over the steps (gamma = 0 is a legal discount). Dyna-Q's model and counter are read by their stores per path. "
     "A mismatch is a violation only when the value read is built from the documented ingredients (or a path witness / wrong constant exists); "
     "any other form is undecided."
 )
-TRUSTED = ["jnp `.at[idx].add/.set` functional update semantics; jnp.argmax returns a maximiser; jax.lax.fori_loop(lo, hi, body, init)"]
+TRUSTED = ["jnp `.at[idx].add/.set` functional update semantics; jnp.argmax returns a maximiser; jax.lax.fori_loop(lo, hi, body, init); "
+           "jax.lax.scan(f, init, xs, reverse) calls f(carry, xs-entries at one position) over the leading axis (from the end when reverse) and returns (final carry, outputs)"]
 RULES = {
     "R1-update-formula": "returned table == Q.at[s,a].add(lr * (r + gamma * (1 - terminated) * V_next - Q[s,a])) with the algorithm's V_next (polynomial identity)",
     "R1-footprint": "exactly one table write per update, at the index tuple that is read for Q[s,a]",
     "R2-co-indexing": "the successor action indexes the successor row and was selected on the documented table at the successor observation",
-    "R3-monte-carlo": "backward loop: idx = len-1-i, G' = r + gamma*G, n' = n.at[s,a].add(1), Q' = Q.at[s,a].add((G' - Q[s,a]) / n'[s,a]); G0 = 0 over [0, len)",
+    "R3-monte-carlo": "backward loop (fori_loop or reversed scan): idx = len-1-i, G' = r + gamma*G, n' = n.at[s,a].add(1), Q' = Q.at[s,a].add((G' - Q[s,a]) / n'[s,a]); G0 = 0 over [0, len); the returned pair is (Q, n) of the final loop state",
+    "R3-domain": "the Monte-Carlo update is defined for every discount, gamma = 0 included: no value that reaches the returned tables is divided by gamma or by a power of gamma that runs over the steps",
     "R4-dyna-q": "Dyna-Q uses the greedy-successor update for real and replayed transitions; the model row P(.|s,a) is rewritten as a whole (empirical frequencies), rewards are means",
 }
 
@@ -388,12 +393,22 @@ def _record_as_tuple(nf, p):
     return q_, list(fields)
 
 
+_LOOP_SIGS = {"fori_loop": ["lower", "upper", "body_fun", "init_val"], "scan": ["f", "init", "xs", "length", "reverse", "unroll", "_split_transpose"]}
+
+
+def _plain_constant(nf, p):
+    """zeros(shape, ...) / zeros_like(x) start a loop-state component from the constant 0 just like the literal does."""
+    m = nf.meta.get(p.single_atom() or "", {})
+    return Poly.const(0) if m.get("fn", "").split(".")[-1] in ("zeros", "zeros_like") else p
+
+
 # ---- Monte-Carlo control -------------------------------------------------------------------------------------------------------------
 def _monte_carlo(ck, repo, nf):
     """The backward pass is read by roles, not by position or spelling: the loop-state component initialised with the table parameter is
     Q, the one initialised with the count parameter is n, a constant-initialised one that is discounted is G; functional updates are
     compared as (entry, change of the entry), so `.set(old + v)` is `.add(v)`; the episode length may be read from any of the three
-    equally long episode arrays, as `.shape[0]` or `len()`."""
+    equally long episode arrays, as `.shape[0]` or `len()`.  `jax.lax.scan(body, init, xs, reverse=True)` is the same loop: step k works on the
+    entries xs[..][-1 - k] (forward scans over reversed arrays likewise), the carry is the loop state."""
     q = A + "monte_carlo.update"
     fn = repo.func(q)
     mi = fn._module
@@ -401,28 +416,68 @@ def _monte_carlo(ck, repo, nf):
     penv = {p_: Poly.atom(p_, {p_}, {p_}) for p_ in param_names(fn)}
     ocfg = nf.cfg_of(fn)
     osc = Scope(ocfg, mi, penv, q)
-    calls = [(n, c) for n in ocfg.nodes if n.ast is not None and n.kind == "stmt" and not isinstance(n.ast, ast.FunctionDef) for c in ast.walk(n.ast)
-             if isinstance(c, ast.Call) and isinstance(c.func, (ast.Name, ast.Attribute)) and (repo.resolve_expr(mi, c.func) or dotted(c.func)).split(".")[-1] == "fori_loop"]
-    ck.need(len(calls) == 1, f"{q}: the backward pass is not one jax.lax.fori_loop(lo, hi, body, init) (unrecognised form)")
-    node, call = calls[0]
-    sig = ["lower", "upper", "body_fun", "init_val"]
-    ck.need(len(call.args) <= 4 and not any(isinstance(a_, ast.Starred) for a_ in call.args) and all(k.arg in sig[len(call.args):] for k in call.keywords),
-            f"{q}: fori_loop arguments not bound (unrecognised form)")
+    calls = [(n, c, k_) for n in ocfg.nodes if n.ast is not None and n.kind == "stmt" and not isinstance(n.ast, ast.FunctionDef) for c in ast.walk(n.ast)
+             if isinstance(c, ast.Call) and isinstance(c.func, (ast.Name, ast.Attribute)) for k_ in [(repo.resolve_expr(mi, c.func) or dotted(c.func)).split(".")[-1]] if k_ in _LOOP_SIGS]
+    ck.need(len(calls) == 1, f"{q}: the backward pass is not one jax.lax.fori_loop(lo, hi, body, init) / jax.lax.scan(body, init, xs, reverse=True) (unrecognised form)")
+    node, call, kind = calls[0]
+    sig = _LOOP_SIGS[kind]
+    ck.need(len(call.args) <= len(sig) and not any(isinstance(a_, ast.Starred) for a_ in call.args) and all(k.arg in sig[len(call.args):] for k in call.keywords),
+            f"{q}: {kind} arguments not bound (unrecognised form)")
     bound = dict(zip(sig, call.args))
     bound.update({k.arg: k.value for k in call.keywords})
-    ck.need(set(bound) == set(sig), f"{q}: fori_loop arguments not bound (unrecognised form)")
-    bf = bound["body_fun"]
+    scan = kind == "scan"
+    if scan:
+        # scan(f, init, xs, reverse=...): the body sees the carry and the entries of xs at one position; positions run over the whole leading
+        # axis, from the end when reverse=True.  Step k (0, 1, ...) of a reversed scan is at position -1 - k: x[-1 - k] is x[len - 1 - k]
+        ck.need({"f", "init", "xs"} <= set(bound) and all(k_ in ("f", "init", "xs", "reverse", "unroll", "length") for k_ in bound), f"{q}: scan arguments not bound (unrecognised form)")
+        if "length" in bound and isinstance(bound["length"], ast.Constant) and bound["length"].value is None:
+            del bound["length"]
+        rev = bound.get("reverse", ast.Constant(value=False))
+        ck.need(isinstance(rev, ast.Constant) and isinstance(rev.value, bool), f"{q}: direction of the scan is not a literal (unrecognised form)")
+        bf, init_e, reverse = bound["f"], bound["init"], rev.value
+    else:
+        ck.need(set(bound) == set(sig), f"{q}: fori_loop arguments not bound (unrecognised form)")
+        bf, init_e = bound["body_fun"], bound["init_val"]
     body = next((n for n in fn.body if isinstance(n, ast.FunctionDef) and isinstance(bf, ast.Name) and n.name == bf.id), None)
     ck.need(body is not None, f"{q}: loop body function not found (unrecognised form)")
     body._module = mi
     cfg = nf.cfg_of(body)
     bp = positional_params(body)
-    ck.need(len(bp) == 2, f"{q}: fori_loop body must take (i, state) (unrecognised form)")
-    i, st = bp
+    ck.need(len(bp) == 2, f"{q}: loop body must take (i, state) / (carry, x) (unrecognised form)")
+    if scan:
+        st, xvar = bp
+        i = "step__"
+        ck.need(i not in {x.id for x in ast.walk(fn) if isinstance(x, ast.Name)}, f"{q}: name clash (unrecognised form)")
+    else:
+        i, st = bp
     env = {i: Poly.atom(i, {i}, {i}), st: Poly.atom(st, {st}, {st})}
     # closure variables of the loop body: single top-level assignments of the enclosing function (ep_len = rewards.shape[0], ...)
     env.update({k_: v_ for k_, v_ in closure_env(nf, fn, body, mi, penv, q).items() if k_ not in env})
-    init, carrier = _record_as_tuple(nf, nf.poly(bound["init_val"], osc, node.id))
+    if scan:
+        def entry(X, backwards):
+            """the entry of one scanned array at the position of this step (arange(n) holds the position itself; walking over a reversed
+            array - x[::-1], flip(x) - is walking over the array in the other direction)"""
+            a_ = X.single_atom() or ""
+            m_ = nf.meta.get(a_, {})
+            f_ = m_.get("fn", "").split(".")[-1]
+            if f_ == "arange" and len(m_.get("args", [])) == 1 and not m_.get("kws"):
+                return (m_["args"][0] - Poly.const(1) - env[i]) if backwards else env[i]
+            if (f_ == "flip" and len(m_.get("args", [])) == 1 and all(k_ == "axis" and v_ == Poly.const(0) for k_, v_ in m_.get("kws", {}).items())) \
+                    or (f_ == "subscript" and a_.endswith("[::-1]") and len(m_.get("args", [])) == 1 and a_ == m_["args"][0].canon() + "[::-1]"):
+                return entry(m_["args"][0], not backwards)
+            ck.need(X.elems is None, f"{q}: nested structure is scanned over (unrecognised form)")
+            return nf.poly(parse_expr("X__[(0 - 1 - I__)]" if backwards else "X__[I__]"), Scope(None, mi, {"X__": X, "I__": env[i]}, q), None)
+        xs = nf.poly(bound["xs"], osc, node.id)
+        ck.need(xs.canon() != "None", f"{q}: scan without scanned arrays (unrecognised form)")
+        if xs.elems is not None:
+            xe = Poly.atom(xvar, {xvar}, {xvar})
+            xe.elems = [entry(X, reverse) for X in xs.elems]
+            env[xvar] = xe
+        else:
+            env[xvar] = entry(xs, reverse)
+    init, carrier = _record_as_tuple(nf, nf.poly(init_e, osc, node.id))
+    if init.elems is not None:
+        init.elems = [_plain_constant(nf, e_) for e_ in init.elems]
     if carrier:
         # the loop state is a plain record (NamedTuple): its fields are the components of the state in field order
         nf.meta[st] = {"deps": frozenset([st]), "gdeps": frozenset([st]), "fn": "", "args": [], "kws": {},
@@ -430,10 +485,19 @@ def _monte_carlo(ck, repo, nf):
     sc = Scope(cfg, mi, env, q + ".<locals>." + body.name)
     rets = [n for n in cfg.nodes if n.kind == "stmt" and isinstance(n.ast, ast.Return)]
     ck.need(len(rets) == 1, f"{q}: body has {len(rets)} returns (unrecognised form)")
-    rp, carrier2 = _record_as_tuple(nf, nf.poly(rets[0].ast.value, sc, rets[0].id))
+    rp0 = nf.poly(rets[0].ast.value, sc, rets[0].id)
+    if scan:
+        # the body of a scan returns (new carry, per-step output)
+        ck.need(rp0.elems is not None and len(rp0.elems) == 2, f"{q}: scan body does not return (carry, output) (unrecognised form)")
+        rp0 = rp0.elems[0]
+    rp, carrier2 = _record_as_tuple(nf, rp0)
     ck.need(carrier == carrier2, f"{q}: the loop body returns another kind of state than the loop is started with (unrecognised form)")
     ck.need(rp.elems is not None and init.elems is not None and len(rp.elems) == len(init.elems), f"{q}: loop state is not a tuple display of one length in the body and at the call (unrecognised form)")
-    lo, hi = nf.poly(bound["lower"], osc, node.id), nf.poly(bound["upper"], osc, node.id)
+    if scan:
+        # a scan walks over the whole leading axis of its arrays (a length given as well has to be that length)
+        lo, hi = Poly.const(0), (nf.poly(bound["length"], osc, node.id) if "length" in bound else None)
+    else:
+        lo, hi = nf.poly(bound["lower"], osc, node.id), nf.poly(bound["upper"], osc, node.id)
     ssc = Scope(None, mi, env, q)
     P = lambda txt: nf.poly(parse_expr(txt), ssc, None)
     where = loc(mi, body)
@@ -445,7 +509,8 @@ def _monte_carlo(ck, repo, nf):
     if not kN:
         # no component carries the counts.  Evidence of a count that does not run with the loop: the change of Q is built from the count
         # parameter itself (a value fixed before the loop)
-        if edQ is not None and Np in ingredient_tokens(edQ[2]):
+        plain = set(param_names(fn)) | {st, i, "at", "add", "set", "shape", "len"}      # nothing but the arguments, the loop state and functional updates
+        if edQ is not None and Np in ingredient_tokens(edQ[2]) and ingredient_tokens(edQ[2]) <= plain and not any(mk in edQ[2].canon() for mk in (":", "φ(", "⟦", "λ[")):
             ck.ob("R3-monte-carlo", q, "body:n'", False, f"loop state has {len(rp.elems)} components, none of them initialised with `{Np}`; change of Q = {edQ[2].canon()[:110]}",
                   "the visit count is not advanced inside the backward loop: every step must divide by the number of visits *so far* (running mean), not by a count computed elsewhere", where)
             return
@@ -501,12 +566,133 @@ def _monte_carlo(ck, repo, nf):
     # fori_loop(0, ep_len, body, (q_table, n_visits, 0.0)); ep_len = the length of the episode arrays
     parts = []      # (ok, evidence)
     parts.append((lo == Poly.const(0), lo.is_const()))
-    parts.append((any(hi == P(t) for t in lens), _evidence(hi, P(lens[0])) and not foreign))
+    if hi is not None:
+        parts.append((any(hi == P(t) for t in lens), not scan and _evidence(hi, P(lens[0])) and not foreign))
     parts.append((init.elems[kG] == Poly.const(0), True))
     ok = all(o_ for o_, _e in parts)
     if not ok and not any(e_ for o_, e_ in parts if not o_):
         raise AnalysisError(f"{q}: loop bounds `{lo.canon()[:40]}`, `{hi.canon()[:60]}` (unrecognised form)")
-    ck.ob("R3-monte-carlo", q, "loop-bounds-and-init", ok, f"fori_loop({lo.canon()[:30]}, {hi.canon()[:50]}, ..., {init.canon()[:80]})", "" if ok else "expected fori_loop(0, len(rewards), body, (q_table, n_visits, 0.0))", loc(mi, call))
+    shown = f"scan(..., {init.canon()[:80]}, <whole axis>, reverse={reverse})" if scan else f"fori_loop({lo.canon()[:30]}, {hi.canon()[:50]}, ..., {init.canon()[:80]})"
+    ck.ob("R3-monte-carlo", q, "loop-bounds-and-init", ok, shown, "" if ok else "expected fori_loop(0, len(rewards), body, (q_table, n_visits, 0.0))", loc(mi, call))
+    # what the routine hands back: (Q, n) as the backward pass leaves them - the components of the final loop state that carry them
+    orets = [n for n in ocfg.nodes if n.kind == "stmt" and isinstance(n.ast, ast.Return) and n.ast.value is not None]
+    ck.need(len(orets) == 1, f"{q}: {len(orets)} return statements (unrecognised form)")
+    out, _fields = _record_as_tuple(nf, nf.poly(orets[0].ast.value, osc, orets[0].id))
+    mo = nf.meta.get(out.single_atom() or "", {})
+    comps = out.elems if out.elems is not None else (mo.get("args") if "namedtuple(" in mo.get("fn", "") and not mo.get("kws") else None)
+    if comps is None and "namedtuple(" in mo.get("fn", "") and not mo.get("args"):
+        # namedtuple("T", [field, ...])(field=value, ...): the values in the order of the declared fields
+        decl = (nf.meta.get(mo["fn"], {}).get("args") or [None, None])[1:2]
+        names = [e_.canon().strip("'\"") for e_ in (decl[0].elems or [])] if decl and decl[0] is not None else []
+        if names and sorted(names) == sorted(mo["kws"]):
+            comps = [mo["kws"][n_] for n_ in names]
+    ck.need(comps is not None and len(comps) == 2, f"{q}: returned value `{out.canon()[:80]}` is not a pair (table, counts) (unrecognised form)")
+
+    def origin(c):
+        """('loop', k): component k of the final loop state; ('argument', name): the table as it was passed in; None: something else"""
+        for nm in (Qp, Np):
+            if c == penv[nm]:
+                return "argument", nm
+        a_ = c.single_atom() or ""
+        m_ = nf.meta.get(a_, {})
+        if not m_.get("args") or m_.get("fn") not in ("proj", "attr"):
+            return None
+        base = m_["args"][0]
+        tail = a_[len(base.canon()):]
+        if m_["fn"] == "proj" and re.fullmatch(r"\[\d+\]", tail):
+            k = int(tail[1:-1])
+        elif m_["fn"] == "attr" and carrier and tail[1:] in carrier:
+            k = carrier.index(tail[1:])
+        else:
+            return None
+        if scan:
+            mb = nf.meta.get(base.single_atom() or "", {})      # scan returns (final carry, outputs)
+            if mb.get("fn") != "proj" or not mb.get("args") or base.single_atom() != mb["args"][0].canon() + "[0]":
+                return None
+            base = mb["args"][0]
+        return ("loop", k) if nf.meta.get(base.single_atom() or "", {}).get("fn", "").split(".")[-1] == kind else None
+    for what, c, k_want, nm in (("Q", comps[0], kQ, Qp), ("n", comps[1], kN, Np)):
+        og = origin(c)
+        if og is None or (og[0] == "loop" and og[1] >= len(init.elems)):
+            raise AnalysisError(f"{q}: returned {what} `{c.canon()[:100]}` is not read as a component of the final loop state (unrecognised form)")
+        ok = og == ("loop", k_want)
+        ck.ob("R3-monte-carlo", q, f"result:{what}", ok, f"returned {what} = {'component %d of the final loop state' % og[1] if og[0] == 'loop' else 'the argument `%s`, unchanged' % og[1]}",
+              "" if ok else f"the routine must hand back the {what} table that the backward pass produced (component {k_want} of the final loop state, the one started from `{nm}`)", loc(mi, orets[0].ast))
+
+
+def _reaching(nf, roots):
+    """(atom, exponent) of every factor of the values that ``roots`` are computed from: through calls, functional updates, subscripts,
+    records and tuples (dataflow over the normal forms, no text)."""
+    seen, todo = set(), list(roots)
+    while todo:
+        p = todo.pop()
+        if not isinstance(p, Poly):
+            continue
+        todo.extend(p.elems or [])
+        for mono in p.terms:
+            for a, k in mono:
+                yield a, k
+                if a in seen:
+                    continue
+                seen.add(a)
+                m = nf.meta.get(a) or {}
+                todo.extend(m.get("args", []))
+                todo.extend(m.get("kws", {}).values())
+                todo.extend(m.get("record", {}).values())
+                if "at" in m:
+                    todo.append(m["at"]["base"])
+
+
+def _mc_domain(ck, repo, nf):
+    """The property holds for every discount, gamma = 0 included (the return is then the immediate reward).  A value that reaches the
+    returned tables and is divided by gamma, or by a power of gamma whose exponent runs over the steps of the episode, is 0/0 or x/0 there:
+    the textbook update is a polynomial in gamma.  (Factors that cancel in the normal form are not seen; no evidence, no verdict.)"""
+    q = A + "monte_carlo.update"
+    fn = repo.func(q)
+    mi = fn._module
+    Rw, Ob, Ac, Gm = _params_by_role(fn, q, ["rewards", "observations", "actions", "gamma"])
+    penv = {p_: Poly.atom(p_, {p_}, {p_}) for p_ in param_names(fn)}
+    ocfg = nf.cfg_of(fn)
+    osc = Scope(ocfg, mi, penv, q)
+    roots, steps = [], {"arange", "shape", "len", Rw, Ob, Ac}
+    for n in ocfg.nodes:
+        if n.kind == "stmt" and isinstance(n.ast, ast.Return) and n.ast.value is not None:
+            roots.append(nf.poly(n.ast.value, osc, n.id))
+    # loop bodies (nested functions) that the returned value is computed with: what they return reaches the result too
+    for inner in [x for x in fn.body if isinstance(x, ast.FunctionDef)]:
+        ref = f"{q}.<locals>.{inner.name}"
+        if not any(a == ref for a, _k in _reaching(nf, roots)):
+            continue
+        inner._module = mi
+        icfg = nf.cfg_of(inner)
+        bp = positional_params(inner)
+        env = {b_: Poly.atom(b_, {b_}, {b_}) for b_ in bp}
+        env.update({k_: v_ for k_, v_ in closure_env(nf, fn, inner, mi, penv, q).items() if k_ not in env})
+        isc = Scope(icfg, mi, env, ref)
+        steps |= set(bp[:1])        # fori_loop hands the step number to its body
+        for n in icfg.nodes:
+            if n.kind == "stmt" and isinstance(n.ast, ast.Return) and n.ast.value is not None:
+                roots.append(nf.poly(n.ast.value, isc, n.id))
+    ck.need(roots, f"{q}: nothing is returned (unrecognised form)")
+
+    def vanishes_with_gamma(b):
+        return bool(b.terms) and all(any(a == Gm and k > 0 for a, k in mono) for mono in b.terms)
+    bad = []
+    for a, k in _reaching(nf, roots):
+        if k >= 0:
+            continue
+        m = nf.meta.get(a) or {}
+        if a == Gm:
+            bad.append(a)
+        elif m.get("fn") == "pow" and len(m.get("args", [])) == 2 and vanishes_with_gamma(m["args"][0]):
+            e = m["args"][1]
+            c = e.const_value()
+            if (c is not None and c > 0) or (c is None and ingredient_tokens(e) <= steps):
+                bad.append(a)
+    ok = not bad
+    ck.ob("R3-domain", q, "defined-for-every-discount", ok, f"divisors made of the discount alone: {sorted(set(bad))}"[:170] if bad else "no value that reaches the result is divided by the discount",
+          "" if ok else f"a value that reaches the returned tables is divided by `{bad[0][:60]}`, which is 0 for gamma = 0 (a legal discount: the return is then the immediate reward): "
+          "the entries become 0/0 = nan; the documented return G' = r + gamma * G needs no division", loc(mi, fn))
 
 
 # ---- Dyna-Q ---------------------------------------------------------------------------------------------------------------------------
@@ -711,6 +897,7 @@ def run(ck, repo: Repo, tier: str):
     ck.guard(_td_loops, ck, repo, nf)
     ck.guard(_td_error, ck, repo, nf)
     ck.guard(_monte_carlo, ck, repo, nf)
+    ck.guard(_mc_domain, ck, repo, nf)
     ck.guard(_dynaq, ck, repo, nf)
     ck.guard(_dyna_model, ck, repo, nf)
     ck.guard(_dyna_counter, ck, repo, nf)
@@ -722,6 +909,17 @@ _Q_CALL = "        q_table = _update_policy(\n            q_table,\n            
 _Q_BRANCH = ("        if terminated:\n            target = reward\n        else:\n            target = reward + gamma * q_table[next_observation, next_action]\n"
              "        q_table = q_table.at[observation, action].add(\n            learning_rate * (target - q_table[observation, action])\n        )\n")
 _DQL_REST = "                observation,\n                action,\n                reward,\n                next_observation,\n                gamma,\n                learning_rate,\n                terminated,\n            )\n"
+_MC_BODY = "    def _update_body(i, state):\n        q_table, n_visits, ep_return = state\n        idx = ep_len - 1 - i\n\n        obs = observations[idx]\n        act = actions[idx]\n        rew = rewards[idx]\n"
+_MC_CALL = "    q_table, n_visits, _ = jax.lax.fori_loop(\n        0, ep_len, _update_body, (q_table, n_visits, 0.0)\n    )\n"
+_MC_RET = "        return (q_table, n_visits, ep_return)\n"
+_MC_SCAN_BODY = "    def _update_body(state, step):\n        q_table, n_visits, ep_return = state\n        obs, act, rew = step\n"
+_MC_SCAN_RET = "        return (q_table, n_visits, ep_return), None\n"
+
+
+def _mc_scan_call(direction, init="(q_table, n_visits, jnp.zeros(()))", xs="(observations, actions, rewards)"):
+    return f"    (q_table, n_visits, _), _ = jax.lax.scan(\n        _update_body, {init}, {xs}{direction}\n    )\n"
+
+
 MUTANTS = [
     {"id": "c14-q-wrong-next-index", "file": _Q, "rule": "R1", "find": "q_table[next_observation, next_action]", "replace": "q_table[next_observation, action]"},
     {"id": "c14-q-write-next", "file": _Q, "rule": "R1", "find": "    q_table = q_table.at[observation, action].add(learning_rate * error)", "replace": "    q_table = q_table.at[next_observation, action].add(learning_rate * error)"},
@@ -754,6 +952,19 @@ MUTANTS = [
     {"id": "c14-dyna-reward-over-row-visits", "file": _Y, "rule": "R4", "find": "        np.mean(counter.reward_history[obs][act][next_obs])", "replace": "        sum(counter.reward_history[obs][act][next_obs]) / sum(counts)"},
     {"id": "c14-dyna-planning-entry-swapped", "file": _Y, "rule": "R4", "find": "        q_table = q_learning_update(\n            obs,\n            act,\n            reward,\n            next_obs,", "replace": "        q_table = q_learning_update(\n            act,\n            obs,\n            reward,\n            next_obs,"},
     {"id": "c14-dyna-reward-last", "file": _Y, "rule": "R4", "find": "        np.mean(counter.reward_history[obs][act][next_obs])", "replace": "        counter.reward_history[obs][act][next_obs][-1]"},
+    {"id": "c14-mc-scan-forward", "file": _M, "rule": "R3-monte-carlo", "edits": [(_MC_BODY, _MC_SCAN_BODY), (_MC_RET, _MC_SCAN_RET), (_MC_CALL, _mc_scan_call(""))]},
+    {"id": "c14-mc-scan-final-counts", "file": _M, "rule": "R3-monte-carlo", "edits": [
+        (_MC_BODY, "    totals = n_visits.at[observations, actions].add(1)\n\n    def _update_body(state, step):\n        q_table, ep_return = state\n        obs, act, rew = step\n"),
+        ("        n_visits = n_visits.at[obs, act].add(1)\n", ""), ("            1.0 / n_visits[obs, act] * pred_error", "            pred_error / totals[obs, act]"), (_MC_RET, "        return (q_table, ep_return), None\n"),
+        (_MC_CALL, "    (q_table, _), _ = jax.lax.scan(\n        _update_body, (q_table, 0.0), (observations, actions, rewards), reverse=True\n    )\n    n_visits = totals\n")]},
+    {"id": "c14-mc-return-rescaled-by-discount", "file": _M, "rule": "R3-domain", "edits": [
+        ("    ep_len = rewards.shape[0]\n", "    ep_len = rewards.shape[0]\n    weights = jnp.power(gamma, jnp.arange(ep_len))\n    togo = jnp.flip(jnp.cumsum(jnp.flip(weights * rewards))) / weights\n"),
+        ("        ep_return = rew + gamma * ep_return\n", "        ep_return = togo[idx]\n")]},
+    {"id": "c14-mc-return-divided-by-discount", "file": _M, "rule": "R3-domain", "find": "        ep_return = rew + gamma * ep_return\n",
+     "replace": "        ep_return = jnp.sum(jnp.stack([gamma * rew, gamma * gamma * ep_return])) / gamma\n"},
+    {"id": "c14-mc-scan-returns-reversed-pairs-not", "file": _M, "rule": "R3-monte-carlo", "edits": [(_MC_BODY, _MC_SCAN_BODY), (_MC_RET, _MC_SCAN_RET), (_MC_CALL, _mc_scan_call("", xs="(observations, actions, jnp.flip(rewards))"))]},
+    {"id": "c14-mc-result-components-swapped", "file": _M, "rule": "R3-monte-carlo", "find": "    q_table, n_visits, _ = jax.lax.fori_loop(", "replace": "    n_visits, q_table, _ = jax.lax.fori_loop("},
+    {"id": "c14-mc-result-dropped", "file": _M, "rule": "R3-monte-carlo", "find": "    q_table, n_visits, _ = jax.lax.fori_loop(", "replace": "    _, n_visits, _ = jax.lax.fori_loop("},
 ]
 BENIGN = [
     {"id": "c14-b-q-inline-td", "file": _Q, "find": "    error = td_error(reward, gamma, val, next_val)", "replace": "    error = reward + gamma * next_val - val"},
@@ -781,4 +992,18 @@ BENIGN = [
                 "        if update_first:\n            q_table1 = learner\n        else:\n            q_table2 = learner\n"},
     {"id": "c14-b-q-action-alias", "file": _Q, "find": "        next_observation, reward, terminated, truncated, info = env.step(\n            int(action)\n        )", "replace": "        chosen = int(action)\n        next_observation, reward, terminated, truncated, info = env.step(chosen)"},
     {"id": "c14-b-q-mask-by-branch", "file": _Q, "find": _Q_CALL, "replace": _Q_BRANCH},
+    {"id": "c14-b-mc-scan-reverse", "file": _M, "edits": [(_MC_BODY, _MC_SCAN_BODY), (_MC_RET, _MC_SCAN_RET), (_MC_CALL, _mc_scan_call(", reverse=True"))]},
+    {"id": "c14-b-mc-scan-keywords", "file": _M, "edits": [(_MC_BODY, _MC_SCAN_BODY.replace("obs, act, rew = step", "rew, act, obs = step")), (_MC_RET, _MC_SCAN_RET),
+                                                          (_MC_CALL, "    (q_table, n_visits, _), _ = jax.lax.scan(\n        reverse=True, xs=(rewards, actions, observations), init=(q_table, n_visits, 0.0), f=_update_body\n    )\n")]},
+    {"id": "c14-b-mc-scan-positions", "file": _M, "edits": [(_MC_BODY, "    def _update_body(state, idx):\n        q_table, n_visits, ep_return = state\n\n        obs = observations[idx]\n        act = actions[idx]\n        rew = rewards[idx]\n"),
+                                                           (_MC_RET, _MC_SCAN_RET), (_MC_CALL, _mc_scan_call(", reverse=True", init="(q_table, n_visits, 0.0)", xs="jnp.arange(ep_len)"))]},
+    {"id": "c14-b-mc-discount-power-one", "file": _M, "find": "        ep_return = rew + gamma * ep_return\n", "replace": "        ep_return = rew + jnp.power(gamma, 1) * ep_return\n"},
+    {"id": "c14-b-mc-unused-horizon", "file": _M, "find": "    ep_len = rewards.shape[0]\n", "replace": "    ep_len = rewards.shape[0]\n    horizon = 1.0 / gamma  # not used by the update\n"},
+    {"id": "c14-b-mc-scan-forward-over-reversed", "file": _M, "edits": [(_MC_BODY, _MC_SCAN_BODY), (_MC_RET, _MC_SCAN_RET), (_MC_CALL, _mc_scan_call(", length=ep_len", init="(q_table, n_visits, 0.0)", xs="(jnp.flip(observations), actions[::-1], jnp.flip(rewards, axis=0))"))]},
+    {"id": "c14-b-mc-scan-record-carry", "file": _M, "edits": [("@jax.jit\ndef update(", "class _Sweep(NamedTuple):\n    q_table: jnp.ndarray\n    n_visits: jnp.ndarray\n    ep_return: float\n\n\n@jax.jit\ndef update("),
+                                                              ("from collections import namedtuple\n", "from collections import namedtuple\nfrom typing import NamedTuple\n"),
+                                                              (_MC_BODY, "    def _update_body(state, step):\n        q_table, n_visits, ep_return = state.q_table, state.n_visits, state.ep_return\n        obs, act, rew = step\n"),
+                                                              (_MC_RET, "        return _Sweep(q_table, n_visits, ep_return), ep_return\n"),
+                                                              (_MC_CALL, "    final, _ = jax.lax.scan(\n        _update_body, _Sweep(q_table, n_visits, 0.0), (observations, actions, rewards), reverse=True\n    )\n    q_table, n_visits = final.q_table, final.n_visits\n")]},
+    {"id": "c14-b-mc-result-by-position", "file": _M, "edits": [("    q_table, n_visits, _ = jax.lax.fori_loop(", "    swept = jax.lax.fori_loop("), ("    return namedtuple(\"MCResult\", [\"q_table\", \"n_visits\"])(q_table, n_visits)", "    new_table, new_counts = swept[0], swept[1]\n    return new_table, new_counts")]},
 ]
